@@ -10,6 +10,12 @@ CHECKS = [
         "note": "Trusted: Coq kernel, the harness, actor-rank mapping. The theorems are about Clock/ChangeID.v and Base/VV.v; the tie to the Go code is differential (600 cases quick, 6000 thorough).",
         "technique": "Coq proof (induction over replica event traces) + differential correspondence against the Go code",
     },
+    {
+        "property_id": "C20",
+        "text": "Coq theorems: for every sequence of EnsureChanges/ExpandRange/ReplaceOrInsert calls and table growth that respects the caller obligations, EnsureChanges+ChangesInRange answers exactly the table rows of the range in order, and the fetcher is never asked for a covered sequence (invariant by induction over call sequences; range merging proved exact). The executable model is compared with the real mongo.ChangeStore on random op sequences on every run, and the transparency/no-refetch oracles are evaluated on the implementation itself.",
+        "note": "Trusted: Coq kernel, harness. Modelled not verified: btree/sort (sorted lists), the MongoDB client around the store (cannot run without MongoDB), hashicorp LRU; the snapshot-cache part of C20 is checked by the C02 engine once built.",
+        "technique": "Coq proof (invariant over call sequences) + differential correspondence against mongo.ChangeStore",
+    },
 ]
 
 _claimed = {c["property_id"] for c in CHECKS}
